@@ -25,7 +25,8 @@ EXPECTED_PROBES = ['client_first', 'server_first', 'crossing',
                    'sent_inside_closing', 'app_close_inside_closing',
                    'message_between_closes', 'empty_close_payload',
                    'after_bad_close_on_earlier_connection', 'close_write_failed',
-                   'close_timeout_disabled', 'two_connections_interleaved']
+                   'close_timeout_disabled', 'two_connections_interleaved',
+                   'old_generator_released_mid_handshake']
 
 # every code a peer may send: the RFC 6455 ones, the two registered later
 # (1012 service restart, 1013 try again later), the 3000 and 4000 ranges
@@ -139,6 +140,14 @@ def make_case(family, i, rng, tier):
         case['prelude'] = rng.choice(['close_truncated_reason',
                                       'close_bad_utf8', 'eof_inside_close',
                                       'close_1byte'])
+    elif rng.random() < 0.12 and not case.get('close_write_fails'):
+        # an earlier connection on the same object whose event loop was
+        # abandoned at a message; the consumer still holds that generator
+        # and lets go of it somewhere in the middle of the handshake under
+        # test (a send tried right afterwards must fare as without that)
+        case['prelude'] = 'abandoned_held'
+        case['release_at'] = rng.choice(['ready', 'text', 'binary', 'ping',
+                                         'poll', 'closing', 'closed'])
     case.update(ST.seg_fields(rng))
     # keep the whole exchange well inside the 30 s close timeout
     case['gaps'] = [rng.choice([0, 0, 1000]) for _ in range(3)]
@@ -195,7 +204,21 @@ def build(case):
                                      'kind': case['close_write_fails']}]
         sc['connect']['close_timeout'] = 2
     pre = case.get('prelude')
-    if pre:
+    if pre == 'abandoned_held':
+        first = {'server': S.handshake_steps() + [
+            S.send(peer.enc_frame(1, b'first connection')),
+            S.eof(after=5000001)]}
+        sc['conns'] = [first] + sc['conns']
+        sc['n_connects'] = 2
+        rules = sc.get('app') or []
+        for rule in rules:
+            rule['when'] = dict(rule['when'], attempt=1)
+        rel = {'when': {'name': case['release_at'], 'attempt': 1},
+               'do': [{'op': 'release_old'}] + list(SENDS)}
+        # after the rules that may call close() at the same event
+        sc['app'] = [{'when': {'name': 'text', 'attempt': 0},
+                      'do': [{'op': 'abandon', 'how': 'hold'}]}] + rules + [rel]
+    elif pre:
         fr = {'close_truncated_reason': peer.enc_frame(8, b'\x03\xe8caf\xc3'),
               'close_bad_utf8': peer.enc_frame(8, b'\x03\xe8\xff\xfe'),
               'eof_inside_close': peer.enc_frame(8, b'\x03\xe8bye')[:3],
@@ -244,6 +267,9 @@ def _judge(res, case, sc, expected, tr):
     res.sim_us = tr.world.now
     res.digest = tr.digest()
     kind = case['kind']
+    if case.get('prelude') == 'abandoned_held':
+        res.stats['probe:old_generator_released_mid_handshake'] += \
+            tr.world.stats.get('probe:old_generator_released_late', 0)
     if case.get('prelude'):
         res.stats['probe:after_bad_close_on_earlier_connection'] += 1
         last = oracle.split_attempts(tr.events)[-1]
